@@ -82,3 +82,6 @@
 (define-fun reSpace () RegLan (re.union (str.to_re " ") (str.to_re "\u{9}") (str.to_re "\u{a}") (str.to_re "\u{b}") (str.to_re "\u{c}") (str.to_re "\u{d}")))
 (define-fun allSpace ((s String)) Bool (str.in_re s (re.* reSpace)))
 (define-fun isSpaceCode ((c Int)) Bool (or (= c 32) (and (>= c 9) (<= c 13))))
+; fs.ModeType = ModeDir | ModeSymlink | ModeNamedPipe | ModeSocket | ModeDevice | ModeCharDevice | ModeIrregular
+(define-fun modeBit ((m Int) (k Int)) Bool (= (mod (div m k) 2) 1))
+(define-fun modeRegular ((m Int)) Bool (and (not (modeBit m 2147483648)) (not (modeBit m 134217728)) (not (modeBit m 33554432)) (not (modeBit m 16777216)) (not (modeBit m 67108864)) (not (modeBit m 2097152)) (not (modeBit m 524288))))
